@@ -791,7 +791,9 @@ STRUCT_PROGRAMS = {
     "Return": [("def f(x: Int) -> Int =>\n    if x > 1 then return 7\n    return 3\nprint(f(0))\nprint(f(5))", "3\n7")],
     "IsNA": [],
     "AnonFun": [("def apply(f: Int -> Int, x: Int) -> Int => f(x)\nprint(apply(\\x: Int => x - 1, 3))", "2")],
-    "IfElse": [("def x := 3\nif x > 2 then print(1) else print(2)", "1"), ("def x := 1\nif x > 2 then print(1) else print(2)", "2"),
+    "IfElse": [("def y := 1\ndef b := False\ndef x := match y\n    1 => if b then 10 else 20\n    _ => 30\nprint(x)", "20"),
+               ("def c := True\ndef b := True\ndef x := if c then\n    print(0)\n    if b then 10 else 20\nelse\n    30\nprint(x)", "0\n10"),
+               ("def x := 3\nif x > 2 then print(1) else print(2)", "1"), ("def x := 1\nif x > 2 then print(1) else print(2)", "2"),
                ("def x := 3\ndef y := if x > 2 then 10 else 20\nprint(y)", "10"), ("def x := 3\nif x > 2 then print(1)\nprint(9)", "1\n9"),
                ("def f(x: Int) -> Int =>\n    if x > 2 then\n        10\n    else\n        20\nprint(f(3))\nprint(f(1))", "10\n20"),
                ("def f(x: Int) -> Int => if x > 2 then 10 else 20\nprint(f(3))\nprint(f(1))", "10\n20")],
